@@ -388,9 +388,12 @@ func (c *Ctx) requestClosure(req *ssa.Function, base *ssa.Function) (*ssa.Functi
 			continue
 		}
 		var hit *ssa.Call
+		impl := c.implOf(base)
 		eachInstr(g, func(in ssa.Instruction) {
-			if k, ok := in.(*ssa.Call); ok && c.StaticCalleeOf(&k.Call) == base {
-				hit = k
+			if k, ok := in.(*ssa.Call); ok {
+				if callee := c.StaticCalleeOf(&k.Call); callee != nil && (callee == base || callee == impl) {
+					hit = k
+				}
 			}
 		})
 		if hit != nil {
@@ -398,6 +401,22 @@ func (c *Ctx) requestClosure(req *ssa.Function, base *ssa.Function) (*ssa.Functi
 		}
 	}
 	return nil, nil
+}
+
+// implOf: the package function a BaseClient request method delegates to (publishImpl for Publish, …).
+func (c *Ctx) implOf(base *ssa.Function) *ssa.Function {
+	if base == nil {
+		return nil
+	}
+	switch base.Name() {
+	case "Publish":
+		return c.Func("publishImpl")
+	case "Subscribe":
+		return c.Func("subscribeImpl")
+	case "Unsubscribe":
+		return c.Func("unsubscribeImpl")
+	}
+	return nil
 }
 
 func (c *Ctx) ruleTaskNeverDiscards(rr *RuleRep) {
